@@ -1,1 +1,8 @@
 import NeverModel.Model.Heap
+import NeverModel.Model.Num
+import NeverModel.Model.Index
+import NeverModel.Model.ExcTab
+import NeverModel.Model.Vm
+import NeverModel.Props.C03
+import NeverModel.Props.C09
+import NeverModel.Props.C12
